@@ -15,6 +15,7 @@ fn exec_for(prop: &str) -> Exec {
         "C18" => props::matchw::exec,
         "C16" => props::windows::exec,
         "C06" => props::batch::exec,
+        "C07" => props::multigen::exec,
         "C01" | "C02" | "C03" | "C04" => props::tok::exec,
         _ => panic!("unknown property {prop}"),
     }
@@ -42,6 +43,7 @@ fn main() {
                 "C18" => props::matchw::run_c18(&mut c),
                 "C16" => props::windows::run_c16(&mut c),
                 "C06" => props::batch::run_c06(&mut c),
+                "C07" => props::multigen::run_c07(&mut c),
                 "C01" => props::tok::run_c01(&mut c),
                 "C02" => props::tok::run_bpe(&mut c, false),
                 "C03" => props::tok::run_bpe(&mut c, true),
